@@ -3,6 +3,7 @@ C13 — inertia 1 ignores the band; a gross blunder never drags the rhythm.
 -/
 import Mathlib.Analysis.Complex.ExponentialBounds
 import Wheatley.Props.C12
+import Wheatley.Model.World
 namespace Wheatley.C13
 open Generated
 
@@ -97,5 +98,16 @@ theorem unexpected_stroke_ignored (r : Reg K) (wt : K → K) (reg : List (K × K
     (hand : Bool) (t : K) (h : r.lookupExpected bell hand = none) :
     r.onBellRing wt reg bell hand t = r := by
   simp [Reg.onBellRing, h]
+
+/-- **Inertia 1 can be switched on at run time**: an `inertia` setting of 0 or 1 (the integers the
+settings channel sends) becomes the rhythm's preferred inertia — in particular exactly 1 is accepted,
+and from then on (`inertia1_line_invariant`) no strike moves the line. -/
+theorem inertia_setting_applies {K : Type} [Num K] (w : World K) (wt : K → K) (ct : K) (n : Int)
+    (hstub : w.rh.stub = none) (h0 : 0 ≤ n) (h1 : n ≤ 1) :
+    (World.applyOut wt ct w (.rSetting "inertia" (.int n))).rh.reg.preferredInertia = Num.ofNat n.toNat := by
+  unfold World.applyOut
+  simp only [hstub]
+  have hk : ("inertia" == "peal_speed") = false := by decide
+  simp [hk, h0, h1]
 
 end Wheatley.C13
